@@ -487,8 +487,14 @@ class Fails(list):
 
 
 def call(F, fname, *a):
+    before = [v.copy() if isinstance(v, np.ndarray) else None for v in a]
     try:
-        return getattr(_S["em"], fname)(*a)
+        out = getattr(_S["em"], fname)(*a)
+        for k, (v, b) in enumerate(zip(a, before)):
+            if b is not None and not np.array_equal(v, b, equal_nan=True):
+                F.add("input-mutated", None, {"func": fname, "argument": k})
+                raise Abort()
+        return out
     except Breach as b:
         F.add(b.key, None, dict(b.detail, inside=fname), case=b.case)
         raise Abort()
